@@ -54,6 +54,7 @@ type SliceV struct {
 	Event string   // non-empty when the bytes come from an iterator fetch: event id
 	Off   lin.Form // offset of element 0 inside the event / backing object
 	IsNil Tri
+	Blob  string // non-empty: the bytes are exactly this byte string of the oracle's source
 }
 
 // CondOp enumerates condition shapes.
